@@ -2,7 +2,8 @@
 //! enumeration of writer operation sequences as bnd_writer (see ../writer_drv.rs), checking only
 //! the pointer clauses: every compression pointer points strictly backwards to the first octet of
 //! a label of an earlier name; none inside SRV / Chaosnet A / TSIG / unknown-type RDATA; none in
-//! names written while compression was disabled.
+//! names written while compression was disabled.  The first clause is also the writer side of C02
+//! ("every name is well formed"): its counterexamples are tagged [C13] [C02], the others [C13].
 #[path = "../writer_drv.rs"]
 mod writer_drv;
 fn main() { writer_drv::main_with(false, true) }
